@@ -34,6 +34,7 @@ type Result struct {
 	Notes           []string      `json:"notes"`
 	Extra           map[string]interface{} `json:"extra,omitempty"`
 	distinct        map[string]bool
+	perSig          map[string]int
 	maxViol         int
 }
 
@@ -72,15 +73,23 @@ func (r *Result) Note(format string, a ...interface{}) {
 func (r *Result) Violate(sig map[string]interface{}, replay interface{}, format string, a ...interface{}) {
 	r.mu.Lock()
 	defer r.mu.Unlock()
-	if len(r.Violations) < r.maxViol {
+	// at most two instances per signature are kept, and the budgets (maxViol here, the harnesses' own "stop after n")
+	// count signatures, not instances: the many instances of one registered finding must not crowd out a new violation
+	k, _ := json.Marshal(sig)
+	if r.perSig == nil {
+		r.perSig = map[string]int{}
+	}
+	r.perSig[string(k)]++
+	if r.perSig[string(k)] <= 2 && len(r.Violations) < 2*r.maxViol {
 		r.Violations = append(r.Violations, Violation{Sig: sig, Replay: replay, Text: fmt.Sprintf(format, a...)})
 	}
 }
 
+// NumViolations is the number of distinct violation signatures seen so far.
 func (r *Result) NumViolations() int {
 	r.mu.Lock()
 	defer r.mu.Unlock()
-	return len(r.Violations)
+	return len(r.perSig)
 }
 
 // Write stores the result in $VERIF_OUT.
